@@ -79,7 +79,8 @@ def extract(o, path="", out=None):
     elif n == "EnvironmentObstacle":
         extract(o.obstacle_shape, path + ".obstacle_shape", out)
     elif n == "StopLine":
-        out += [(path + ".start", "point", _pt(o.start)), (path + ".end", "point", _pt(o.end))]
+        if o.start is not None and o.end is not None:  # start and end are optional
+            out += [(path + ".start", "point", _pt(o.start)), (path + ".end", "point", _pt(o.end))]
     elif n == "Lanelet":
         for a in ("left_vertices", "center_vertices", "right_vertices"):
             for i, v in enumerate(getattr(o, a)):
